@@ -428,7 +428,7 @@ func (s *vhsSess) finish(kind string, wga bool, inject map[int]int, complete boo
 		}
 	}
 	gd := 0
-	for i := 0; i < 200; i++ {
+	for i := 0; complete && i < 200; i++ { // judged only after a complete disconnect (connections still run otherwise)
 		gd = runtime.NumGoroutine() - s.g0
 		if gd <= 0 {
 			gd = 0
